@@ -23,7 +23,7 @@ import numpy as np
 from vlib import gen
 from vlib.fitcase import Member
 from vlib.models import DENSITIES, FAMILIES, Model
-from vlib.monitor import FaultyHandle, InjectedFault, OpTimeout, Tol, allclose, fmt_exc, time_limit
+from vlib.monitor import FaultyHandle, InjectedFault, OpTimeout, Tol, allclose, fmt_exc, numerical_failure, time_limit
 from vlib.ref import constraint_cost, constraint_cov, pd_info, source_cov
 
 PROPERTY = "C11"
@@ -1042,16 +1042,28 @@ def check_gls(W, where):
     pv = np.array(multi.parameter_values, dtype=float)
     dev = np.abs(pv - p) / sig_safe
     ctx.stratum("gls:shared" if W.shared_mode else "gls:unshared")
-    ctx.check("gls.parameter_values", bool(np.all(dev[free] <= ptol)), lambda: {"where": where, "got": pv, "expected": p, "sigma": sig, "deviation_in_sigma": dev, "names": names})
+    # open finding shared with C05/C06: the scipy adapter hands out results scipy flags as failed, or that L-BFGS-B (used with limits) stopped
+    # on its relative-reduction criterion; signature: backend scipy AND (success False OR limits declared) AND the reported cost exceeds the
+    # closed-form optimum by more than the tolerance
+    skey = None
+    if W.case["minimizer"] == "scipy":
+        try:
+            res = multi._fitter.minimizer._opt_result
+            worse = float(multi.cost_function_value) > chi2 + float(np.linalg.slogdet(V)[1]) + costtol
+            if res is not None and worse and (not bool(res.success) or bool(W.limits)):
+                skey = "C06/scipy-backend-accepts-unconverged-result"
+        except Exception:
+            skey = None
+    ctx.check("gls.parameter_values", bool(np.all(dev[free] <= ptol)), lambda: {"where": where, "got": pv, "expected": p, "sigma": sig, "deviation_in_sigma": dev, "names": names}, key=skey)
     k = "gls_worst_param_dev_sigma_%s" % W.case["minimizer"]
     ctx.worst[k] = max(ctx.worst.get(k, 0.0), float(np.max(dev[free])) if free else 0.0)
     cm = multi.parameter_cov_mat
     if cm is not None:
         cdev = np.abs(np.array(cm, dtype=float) - Cfull) / np.outer(sig_safe, sig_safe)
-        ctx.check("gls.parameter_cov_mat", bool(np.all(cdev <= ctol)), lambda: {"where": where, "got": cm, "expected": Cfull, "max_normalised_deviation": float(cdev.max()), "tolerance": ctol, "cond": condH})
+        ctx.check("gls.parameter_cov_mat", bool(np.all(cdev <= ctol)), lambda: {"where": where, "got": cm, "expected": Cfull, "max_normalised_deviation": float(cdev.max()), "tolerance": ctol, "cond": condH}, key=skey)
     logdet = float(np.linalg.slogdet(V)[1])
     cv = float(multi.cost_function_value)
-    ctx.check("gls.cost_function_value", abs(cv - (chi2 + logdet)) <= costtol, lambda: {"where": where, "got": cv, "expected": chi2 + logdet, "chi2": chi2, "logdet": logdet})
+    ctx.check("gls.cost_function_value", abs(cv - (chi2 + logdet)) <= costtol, lambda: {"where": where, "got": cv, "expected": chi2 + logdet, "chi2": chi2, "logdet": logdet}, key=skey)
     return nwit(ctx) == n0
 
 
@@ -1370,6 +1382,10 @@ def run_case(ctx, case):
                 ctx.discard("do_fit-minimizer-linear-algebra-failure")  # numerical Hessian of the backend not invertible: not a statement about multi-fits
                 return False
             except Exception as e:
+                if numerical_failure(e) and classify_do_fit_exception(e) is None:
+                    # failure inside third-party numerics (scipy root finding / numdifftools on a degenerate problem): no statement about multi-fits
+                    ctx.discard("do_fit-or-asymmetric-errors-failed-numerically")
+                    return False
                 ctx.violation(classify_do_fit_exception(e), "multi.do_fit.no-exception", {"traceback": fmt_exc(), "op_index": i, "original_exception": repr(e.__context__), "fault_injected_at_cost_evaluation": a.get("fail_at")})
                 return False
             finally:
